@@ -2,7 +2,9 @@ package checks
 
 import (
 	"fmt"
+	"os"
 	"runtime"
+	"strings"
 	"testing"
 	"time"
 
@@ -24,6 +26,7 @@ type c11Case struct {
 	Kind   string `json:"kind"` // vrx | trx | badvrx | badtrx
 	Order  []int  `json:"order"`
 	DupAt  int    `json:"dup_at"` // re-deliver the message delivered at this step (-1: never)
+	Late   bool   `json:"late"`   // the duplicate arrives after the receiver's suppression window has elapsed (vertex items only)
 	Evil   int    `json:"evil"`   // C12: index of the adversarial relay (-1: none)
 	Forge  []int  `json:"forge"`  // C12: the adversary's drawn choices
 }
@@ -194,10 +197,42 @@ func (n *vnet) runGossip(c c11Case, choose func(step, avail int) int, forge func
 				firstIn[m.To] = m
 			}
 			if err := n.deliver(m); err != nil && (sim.IsPanic(err) || err == sim.ErrStuck) {
+				if err == sim.ErrStuck {
+					// the watchdog alone is wall clock: a verdict only if the profiles show the node parked for good
+					if os.Getenv("VERIF_DEBUG") != "" {
+						var sb strings.Builder
+						for _, g := range sim.Goroutines() {
+							if strings.Contains(g.Stack, "verif/harness") || strings.Contains(g.Stack, "Computantis/src/gossip") {
+								sb.WriteString(g.Stack + "\n\n")
+							}
+						}
+						os.WriteFile(fmt.Sprintf("/tmp/c11stuck-%d.txt", shard()), []byte(sb.String()), 0o644)
+					}
+					ok, stacks := sim.ConfirmStuck(5, 400*time.Millisecond)
+					if !ok {
+						return "", "", taken, avail, "gossip handler outlived the watchdog while the node was still progressing"
+					}
+					return "handler-failed", fmt.Sprintf("gossip handler of node %d never returned; every goroutine inside the nodes is parked, unchanged over 5 profiles:\n%s", m.To, stacks), taken, avail, ""
+				}
 				return "handler-failed", fmt.Sprintf("gossip handler of node %d: %v", m.To, err), taken, avail, ""
 			}
 			if step == c.DupAt {
+				late := c.Late && c.Kind == "vrx" && n.nodes[m.To].flash != nil
+				if late {
+					// first let the network finish with the original, then the copy arrives "after the window"
+					if !n.settleFast(baseline) {
+						return "", "", taken, avail, "network did not settle"
+					}
+					n.nodes[m.To].flash.forget.Store(true)
+				}
 				n.deliver(m) // a duplicated message
+				if late {
+					if !n.settleFast(baseline) {
+						n.nodes[m.To].flash.forget.Store(false)
+						return "", "", taken, avail, "network did not settle"
+					}
+					n.nodes[m.To].flash.forget.Store(false)
+				}
 			}
 		}
 		if !n.settleFast(baseline) {
@@ -212,7 +247,7 @@ func (n *vnet) runGossip(c c11Case, choose func(step, avail int) int, forge func
 		defer func() {
 			// bring the network back to uniform ledgers for the next item
 			for _, vn := range n.nodes {
-				for k := 0; k < 10 && len(vn.book.VerifParkedList()) > 0; k++ {
+				for k := 0; k < 10 && len(sim.ParkedList(vn.book)) > 0; k++ {
 					vn.book.VerifRetryOne(bg)
 				}
 			}
@@ -428,7 +463,18 @@ func (n *vnet) adversary(c c11Case, m *vmsg, forge func(string, int) int, hv *ha
 			victim := n.nodes[y].key.Addr
 			nEntries := 1 + forge("entries", 4)
 			for e := 0; e < nEntries; e++ {
-				switch forge("entryKind", 6) {
+				switch forge("entryKind", 9) {
+				case 6: // malformed: the victim's address with a digest of the wrong length (a node that filters such entries must not let the filtering shift anything)
+					list = append(list, &protobufcompiled.Gossiper{Address: victim, Digest: fill([]int{0, 1, 31, 33}[forge("badDigestLen", 4)], "rand", byte(e)), Signature: fill(64, "rand", byte(e+3))})
+				case 7: // malformed: an entry without address, or no entry at all
+					if forge("nilEntry", 2) == 0 {
+						list = append(list, nil)
+					} else {
+						list = append(list, &protobufcompiled.Gossiper{Digest: fill(32, "rand", byte(e)), Signature: fill(64, "rand", byte(e+5))})
+					}
+				case 8: // the adversary's own valid entry for this item
+					d, s := evilKey.Sign(append([]byte(evilKey.Addr), item[:]...))
+					list = append(list, &protobufcompiled.Gossiper{Address: evilKey.Addr, Digest: d[:], Signature: s})
 				case 0: // garbage of correct field lengths
 					list = append(list, &protobufcompiled.Gossiper{Address: victim, Digest: fill(32, "rand", byte(e)), Signature: fill(64, "rand", byte(e+9))})
 				case 1: // an honest node's genuine entry for ANOTHER item
@@ -491,7 +537,7 @@ func sortStrings(s []string) {
 // ---------- C11 ----------
 
 func TestC11(t *testing.T) {
-	st := newStats(t, "C11", "cases = (connected topology, origin, item kind in {vertex created at the origin, awaiting transaction, vertex / transaction with a broken signature}, delivery order of the in-flight messages, optional duplicated delivery) on a virtual network of real gossip nodes over real ledgers and caches; every connected labelled graph on 2-4 nodes x every origin with depth-first enumeration of delivery orders (complete unless the per-(graph,origin) cap is hit), rapid-drawn graphs on 5-6 nodes and orders; oracle from the harness's own log of stub sends and handler calls: every node admits exactly once, at most one forward per peer, never to a verified gossiper of that message (verified by the harness), forward only after own acceptance, messages <= sum of degrees, in-flight set drains; non-trivial = >=3 nodes and the graph has a cycle or a path of >=2 hops; enumerated schedules distinct by construction, random by fingerprint")
+	st := newStats(t, "C11", "cases = (connected topology, origin, item kind in {vertex created at the origin, awaiting transaction, vertex / transaction with a broken signature}, delivery order of the in-flight messages, optional duplicated delivery - for vertices also a duplicate arriving after the receiver's suppression window has elapsed (switchable wrapper around the real recent-hash memory)) on a virtual network of real gossip nodes over real ledgers and caches; every connected labelled graph on 2-4 nodes x every origin with depth-first enumeration of delivery orders (complete unless the per-(graph,origin) cap is hit), rapid-drawn graphs on 5-6 nodes and orders; oracle from the harness's own log of stub sends and handler calls: every node admits exactly once, at most one forward per peer, never to a verified gossiper of that message (verified by the harness), forward only after own acceptance, messages <= sum of degrees, in-flight set drains; non-trivial = >=3 nodes and the graph has a cycle or a path of >=2 hops; enumerated schedules distinct by construction, random by fingerprint")
 	sim.Chdir(workDir(t))
 	sh, nsh := shard(), nshards()
 	hv := &harvest{byAddr: map[string][]*protobufcompiled.Gossiper{}}
@@ -570,6 +616,7 @@ func TestC11(t *testing.T) {
 							c := c11Case{N: k, Graph: gs, Origin: origin, Kind: kind, DupAt: -1, Evil: -1}
 							if orders%5 == 4 {
 								c.DupAt = orders % 3
+								c.Late = kind == "vrx" && (orders/3)%2 == 1
 							}
 							sig, msg, taken, avail, inc := n.runGossip(c, func(step, av int) int {
 								if step < len(prefix) && prefix[step] < av {
@@ -654,6 +701,7 @@ func TestC11(t *testing.T) {
 			}
 			c := c11Case{N: k, Graph: graphString(adj), Origin: rapid.IntRange(0, k-1).Draw(rt, "origin"),
 				Kind: rapid.SampledFrom([]string{"vrx", "vrx", "trx", "confirm", "confirm", "chain2", "chain2", "badvrx", "badtrx"}).Draw(rt, "kind"), DupAt: rapid.IntRange(-1, 6).Draw(rt, "dupAt"), Evil: -1}
+			c.Late = c.Kind == "vrx" && c.DupAt >= 0 && rapid.Bool().Draw(rt, "late")
 			n := getNet(k)
 			if n == nil {
 				rt.Skip("no network")
@@ -678,7 +726,7 @@ func TestC11(t *testing.T) {
 // ---------- C12 ----------
 
 func TestC12(t *testing.T) {
-	st := newStats(t, "C12", "cases = C11's virtual network with ONE node replaced by an adversarial relay the harness plays: on receipt it forwards the intact item 0-2 times to each neighbour with a gossiper list assembled from garbage of correct lengths, honest nodes' genuine entries harvested from OTHER items, the victim's or its peers' addresses signed by the adversary or unsigned, valid sybil entries, and the genuine entries of this item; every connected graph on 3-4 nodes x relay position x origin with drawn orders and forgeries, sampled graphs on 5 nodes; oracle = every honest node with an honest path to the origin (or that received any copy) admits exactly once, and an honest node skips a peer only if the message it processed carries that peer's valid entry for this item (verified by the harness); non-trivial = the adversary lies on a path from the origin and forged >= 1 entry; distinct by (graph, relay, origin, order, forgery choices) fingerprint")
+	st := newStats(t, "C12", "cases = C11's virtual network with ONE node replaced by an adversarial relay the harness plays: on receipt it forwards the intact item 0-2 times to each neighbour with a gossiper list assembled from garbage of correct lengths, malformed entries (wrong digest length, no address, nil) placed before valid ones, honest nodes' genuine entries harvested from OTHER items, the victim's or its peers' addresses signed by the adversary or unsigned, valid sybil entries, and the genuine entries of this item; every connected graph on 3-4 nodes x relay position x origin with drawn orders and forgeries, sampled graphs on 5 nodes; oracle = every honest node with an honest path to the origin (or that received any copy) admits exactly once, and an honest node skips a peer only if the message it processed carries that peer's valid entry for this item (verified by the harness); non-trivial = the adversary lies on a path from the origin and forged >= 1 entry; distinct by (graph, relay, origin, order, forgery choices) fingerprint")
 	sim.Chdir(workDir(t))
 	hv := &harvest{byAddr: map[string][]*protobufcompiled.Gossiper{}}
 	nets := map[int]*vnet{}
